@@ -1,5 +1,6 @@
 import Regatta.Proofs.Crash
 import Regatta.Extracted.Facts
+import Regatta.Props.C03
 /-
   C04 — Crash recovery exposes exactly a prefix of the log, atomically and only once.
 
@@ -114,6 +115,18 @@ theorem c04_replay_converges {s : St} (m : Name) (hm : s.live = some m) (j : Nat
   have e : s.apply (.dbApply j) = s.setPd m ⟨.db j, (s.pd m).dur⟩ := by simp [St.apply, hm]
   have hr : s.run (ops s (.update j)) = s.setPd m ⟨.db j, (s.pd m).dur⟩ := by simp [ops, St.run, e]
   rw [hr]; simp [St.liveIdx, St.setPd, hm, Content.idx]
+
+/-- … and for the content (C04 ∘ C03): the store found after a crash is the result of applying a
+prefix `done` of the log (the abstraction of this model, C01); re-applying the rest `rest` — in
+whatever batches the Raft library replays it — gives the very table (content, applied index, leader
+index) that applying the whole log without a crash gives -/
+theorem c04_replay_same_table (done rest : List Regatta.Fsm.Entry) (hd : done ≠ []) (hr : rest ≠ [])
+    (hwd : ∀ e ∈ done, Regatta.Refine.EntryWF e) (hwr : ∀ e ∈ rest, Regatta.Refine.EntryWF e) :
+    ∃ dbAll n dbA n1 dbB n2 rsAll rsA rsB,
+      Regatta.Fsm.update [] (done ++ rest) = .ok (dbAll, rsAll, n) ∧
+      Regatta.Fsm.update [] done = .ok (dbA, rsA, n1) ∧ Regatta.Fsm.update dbA rest = .ok (dbB, rsB, n2) ∧
+      Regatta.Refine.absT dbAll = Regatta.Refine.absT dbB ∧ rsAll = rsA ++ rsB :=
+  Regatta.Props.C03.c03_batching_independent [] Regatta.Refine.wf_nil done rest hd hr hwd hwr
 
 /-- a snapshot recovery that completes leaves the replica exactly at the snapshot's index (C08) -/
 theorem c04_recover_installs {s : St} (h : Reach s) (n : Name) (j : Nat) :
